@@ -13,7 +13,7 @@
       rbits or wbits / obj.__class__ = entity`                                                       → `refine`
     * `FuncIsinstanceMonad.call`                                                                      → `isinstanceSql`, `evalCond`
   Classes are numbered in definition order (a class is defined after its bases: every direct base has a smaller number);
-  `bases i` are the direct entity bases.  Python's `issubclass` is the inductive closure `Sub`.
+  `bases i` are the direct entity bases.  Python's `issubclass` is the inductive closure `IsSub`.
 -/
 namespace PonyVerif.Model.Inherit
 
@@ -46,7 +46,7 @@ inductive StrictSub (h : Hier) : Nat → Nat → Prop where
   | trans {j b i : Nat} : b ∈ h.bases j → StrictSub h b i → StrictSub h j i
 
 /-- Python `issubclass(j, i)` -/
-def Sub (h : Hier) (j i : Nat) : Prop := j = i ∨ StrictSub h j i
+def IsSub (h : Hier) (j i : Nat) : Prop := j = i ∨ StrictSub h j i
 
 /-- `issubclass(j, i)` as the code can compute it -/
 def Hier.isSub (h : Hier) (j i : Nat) : Bool := j == i || (h.allBasesOf j).contains i
